@@ -55,7 +55,14 @@ def run(ctx, replay):
     c10 = ctx.build("c10", race=True)
     empty = os.path.join(ctx.scratch, "empty.ndjson")
     open(empty, "w").close()
-    ctx.harness(c10, cases=empty, n=300 if thorough else 50, env=env, extra="c10", name="c10-web-race", timeout=3000)
+    # ... preceded by a few interactive sessions whose lines take the option store's error paths (a store that
+    # deadlocks on itself blocks every later reader and writer)
+    optcases = os.path.join(ctx.scratch, "optstore.ndjson")
+    with open(optcases, "w") as f:
+        for line in ("cum=false", "lines=no", "flat=0", "granularity=bogus", "nodecount=abc"):
+            f.write(json.dumps({"lines": [{"kind": "bad", "line": line, "opt": "", "val": ""}, {"kind": "command", "line": "top", "opt": "", "val": ""}],
+                                "prefix": [[], []], "final": []}) + "\n")
+    ctx.harness(c10, cases=optcases, n=300 if thorough else 50, env=env, extra="c10", name="c10-web-race", timeout=3000)
     races(ctx, "web", logdir)
     # 3. parallel fetch under -race
     c16 = ctx.build("c16", race=True)
